@@ -439,6 +439,26 @@ def run(ctx):
         if not ok:
             r4.fail('%s:%s:locate-fields' % (g.crate, fn['name']), '%s/%s:%s' % (g.crate, fl, n.get('l')),
                     '%s must build Locate{offset: s.location_offset(), line: s.location_line(), len: byte length of the fragment}; found %s' % (fn['name'], flds))
+    # a Locate is never modified after it was built: no assignment to a field offset / line / len anywhere in the library crates
+    # (a token whose recorded length differs from what the parser consumed leaves bytes that belong to no leaf, and the derived
+    # Locate::try_from, which asserts that leaves are contiguous, panics on the enclosing node)
+    n_fns = 0
+    for crate_ in ('sv-parser-parser', 'sv-parser-pp', 'sv-parser', 'sv-parser-syntaxtree'):
+        for fl, mp, fn, im in sx.crate_fns(ctx.syn, crate_):
+            if not fn.get('body') or 'tests' in mp:
+                continue
+            n_fns += 1
+            for n in sx.walk(fn['body']):
+                is_asg = n.get('k') == 'assign' or (n.get('k') == 'binary' and str(n.get('op', '')).endswith('=') and n.get('op') not in ('==', '<=', '>=', '!='))
+                if not is_asg:
+                    continue
+                lhs = n.get('l_')
+                if isinstance(lhs, dict) and lhs.get('k') == 'field' and lhs.get('m') in ('offset', 'line', 'len'):
+                    r4.fail('%s:%s:locate-field-assigned:%s' % (crate_, fn['name'], lhs['m']), '%s/%s:%s' % (crate_, fl, n.get('l')),
+                            '%s assigns to `%s`: the position / length of a token is changed after into_locate built it from the consumed fragment, so the leaf no longer covers '
+                            'exactly the bytes the parser consumed (bytes without a leaf; the contiguity assertion of the derived Locate::try_from panics on the enclosing node)'
+                            % (fn['name'], sx.render(lhs)))
+    r4.counts['functions_scanned_for_locate_assignment'] = n_fns
     r4.exactly('new_from_raw_offset_sites(concat role)', len(raw), 1)
     for fl, fn, n in raw:
         ps = [sx.pat_idents(p['pat'])[0] for p in fn['sig']['params']]
@@ -447,6 +467,12 @@ def run(ctx):
         for st_ in sx.walk(fn['body']):
             if st_.get('k') == 'let' and 'pat' in st_ and 'init' in st_ and st_['pat'].get('k') == 'ident':
                 loc_lets.setdefault(st_['pat']['n'], []).append(st_['init'])
+            # let (offset, line) = (a.location_offset(), a.location_line());
+            if st_.get('k') == 'let' and 'pat' in st_ and 'init' in st_ and st_['pat'].get('k') == 'tuple' and st_['init'].get('k') == 'tuple' \
+                    and len(st_['pat']['e']) == len(st_['init']['e']):
+                for pe_, ie_ in zip(st_['pat']['e'], st_['init']['e']):
+                    if pe_.get('k') == 'ident':
+                        loc_lets.setdefault(pe_['n'], []).append(ie_)
         def res_(a_):
             if sx.is_path(a_) and len(loc_lets.get(a_['p'], [])) == 1 and a_['p'] not in ps:
                 return loc_lets[a_['p']][0]
